@@ -367,6 +367,56 @@ def run(ctx):
     ctx.check(okw, 'C06.R5', 'CryptographyEngine.wrap_key|nist-key-wrap', '%s:%s CryptographyEngine.wrap_key' % (CRYPTO, wk.lineno),
               'ENCRYPT + NIST_KEY_WRAP -> keywrap.aes_key_wrap(encryption_key, key_material)', 'wrap_key does not call aes_key_wrap(wrapping key, key material) under ENCRYPT/NIST_KEY_WRAP')
 
+
+    # ---------------- R6 derived material has exactly the requested length
+    ctx.rule('C06.R6', 'in DeriveKey every object built from the derivation output stores exactly derivation_length bytes: shorter output is rejected and longer output is truncated on every path to every constructor')
+    dkf = m.method('_process_derive_key')
+    dg2 = CFG(dkf)
+    drd = ReachingDefs(dg2)
+    dcalls = [(n, c) for n, c in call_nodes(dg2, 'self._cryptography_engine.derive_key')]
+    ctx.need(len(dcalls) == 1 and isinstance(dcalls[0][1]._parent, ast.Assign), 'unrecognised construct: derive_key call in _process_derive_key')
+    dn, dc = dcalls[0]
+    X = dc._parent.targets[0].id
+    lv = [k.value for k in dc.keywords if k.arg == 'derivation_length']
+    ctx.need(len(lv) == 1 and isinstance(lv[0], ast.Name), 'unrecognised construct: derivation_length argument')
+    LV = lv[0].id
+
+    def is_len_cmp(test, bigger_is_len):
+        p = cmp_parts(test)
+        if not p:
+            return False
+        a, op, b = U(p[0]), p[1], U(p[2])
+        ln = 'len(%s)' % X
+        if bigger_is_len:
+            return (a == ln and op == 'Gt' and b == LV) or (a == LV and op == 'Lt' and b == ln)
+        return (a == LV and op == 'Gt' and b == ln) or (a == ln and op == 'Lt' and b == LV)
+    cons = []
+    for n in dg2.nodes:
+        for c in calls_at(n):
+            if (call_name(c) or '').startswith('objects.') and n.id in dg2.reachable(dn):
+                for a in list(c.args) + [k.value for k in c.keywords]:
+                    names = [x.id for x in ast.walk(a) if isinstance(x, ast.Name)]
+                    if X in names:
+                        cons.append((n, c, a))
+    ctx.count('derived_object_constructions', len(cons), 2)
+    for n, c, a in cons:
+        site = m.site(c, dkf)
+        lower = any(is_len_cmp(tt.stmt, False) and lab == 'F' for tt, lab in dominating_edges(dg2, n))
+        upper = False
+        if isinstance(a, ast.Subscript) and isinstance(a.slice, ast.Slice) and U(a.value) == X and a.slice.lower is None and a.slice.upper is not None and U(a.slice.upper) == LV:
+            upper = True
+        elif isinstance(a, ast.Name) and a.id == X:
+            sl = [x for x in dg2.nodes if x.kind == 'stmt' and isinstance(x.stmt, ast.Assign) and isinstance(x.stmt.targets[0], ast.Name) and x.stmt.targets[0].id == X
+                  and isinstance(x.stmt.value, ast.Subscript) and isinstance(x.stmt.value.slice, ast.Slice) and U(x.stmt.value.value) == X and x.stmt.value.slice.upper is not None and U(x.stmt.value.slice.upper) == LV]
+            for tt in [x for x in dg2.nodes if x.kind == 'test' and is_len_cmp(x.stmt, True)]:
+                if dg2.dominates(tt, n) and sl:
+                    tsucc = [mm for mm, l in tt.succ if l == 'T']
+                    if all(dg2.all_paths_pass(s_, n, sl) for s_ in tsucc):
+                        upper = True
+        ctx.check(lower and upper, 'C06.R6', 'KmipEngine._process_derive_key|%s value length' % call_name(c), site,
+                  'the stored value is rejected when shorter and truncated when longer than %s' % LV,
+                  'an object built from the derivation output can hold %s than the requested %s bytes' % ('fewer' if not lower else 'more', LV))
+
     # ---------------- R4 randomness
     csk = get_method(cls, 'create_symmetric_key')
     g = CFG(csk)
